@@ -602,6 +602,10 @@ def check_consumers(repo, chk, options, chain_fns):
 
 
 def run(repo, chk, tier):
+    # the alignment compares frames of different chains: each chain's frames must be the chained rest frames
+    from .c11_helicity import check_frame_typing
+
+    check_frame_typing(repo, chk)
     chk.rule(
         "E3-fwd",
         "at every call site of the angle-option chain, an argument that carries option N (caller parameter N, self.N, "
